@@ -73,7 +73,7 @@ pub fn session(authorized: bool, scenario: u8) -> (Sim, Vec<Vec<Bytes>>) {
         }
     }
     for kind in [CK::Ev, CK::Unord, CK::Unrel, CK::Map, CK::Trig, CK::List] {
-        sim.step(&Step::EmitC { client: ATTACKER, kind, refslot: 0 });
+        sim.step(&Step::EmitC { client: ATTACKER, kind, refslot: 0, refslot2: Some(1) });
     }
     sim.client_frame(ATTACKER);
     for ch in 0..sim.ckinds.len() {
@@ -102,7 +102,7 @@ pub fn inject_with_honest(sim: &mut Sim, msgs: &[(usize, Vec<u8>)], with_honest:
     let mut expected: Vec<(CK, u32)> = Vec::new();
     if with_honest {
         for kind in [CK::Ev, CK::Unord, CK::Unrel, CK::Map, CK::Trig, CK::List] {
-            sim.step(&Step::EmitC { client: HONEST, kind, refslot: 0 });
+            sim.step(&Step::EmitC { client: HONEST, kind, refslot: 0, refslot2: None });
             expected.push((kind, sim.seq));
         }
         sim.client_frame(HONEST);
@@ -146,7 +146,7 @@ pub fn serve_check(sim: &mut Sim, round_no: u32) -> Option<Fail> {
     sim.step(&Step::Spawn { slot, marked: true, comps: vec![K::A, K::B] });
     sim.step(&Step::Mutate { slot: 0, k: K::A });
     sim.step(&Step::Mutate { slot: 1, k: K::C });
-    sim.step(&Step::EmitC { client: HONEST, kind: CK::Ev, refslot: 0 });
+    sim.step(&Step::EmitC { client: HONEST, kind: CK::Ev, refslot: 0, refslot2: None });
     let seq = sim.seq;
     let honest = sim.clients[HONEST].id;
     for _ in 0..4 {
